@@ -167,9 +167,15 @@ impl<B: Body> PreparedRequest<B> {
         let version = Version::HTTP_11;
 
         if proxy.is_some() && url.scheme() == "http" {
-            debug!("{} {} {:?}", self.method.as_str(), url, version);
+            // The absolute-form target must not carry the fragment or the URL's credentials.
+            let mut target = url.clone();
+            target.set_fragment(None);
+            let _ = target.set_username("");
+            let _ = target.set_password(None);
 
-            write!(writer, "{} {} {:?}\r\n", self.method.as_str(), url, version)?;
+            debug!("{} {} {:?}", self.method.as_str(), target, version);
+
+            write!(writer, "{} {} {:?}\r\n", self.method.as_str(), target, version)?;
         } else if let Some(query) = url.query() {
             debug!("{} {}?{} {:?}", self.method.as_str(), url.path(), query, version);
 
